@@ -63,6 +63,9 @@ OBLIGATIONS = [
     "SkVerif.C15.nested_to_long_reserved_name_rejected",
     "SkVerif.C15.nested_to_long_reserved_witness",
     "SkVerif.C15.arr3_nested_duplicate_names_drop_columns",
+    "SkVerif.C15.nested_mi_nested_any_ids",
+    "SkVerif.C15.mi_to_nested_keeps_instance_order",
+    "SkVerif.C15.mi_to_arr3_keeps_instance_order",
     "SkVerif.C15.mi_keys_spec",
     "SkVerif.C15.mi_columns_spec",
     "SkVerif.C15.long_rows_keys_nodup",
@@ -75,13 +78,18 @@ TRUSTED = [
     "the harness-side canonicaliser (corr/C15.py canon) that turns real DataFrames / arrays into the driver's tokens",
 ]
 ASSUMPTIONS = [
-    "row index of nested / 2-D frames is the default RangeIndex and Series cells carry the default time index 0..t-1 (the canonicaliser flags anything else, so a deviation shows as a disagreement)",
+    "instance identifiers (row labels of a start nested frame, instance level of a multi-index frame, instance column of a long table) are pairwise distinct ints or strings in ANY order; "
+    "strings are mapped order-preservingly to integers for the model (it only compares and sorts identifiers). Every frame RETURNED by a converter must carry the default RangeIndex "
+    "(a pandas 2-D table may carry the start frame's row labels) and Series cells the default time index 0..t-1: the canonicaliser flags anything else, so a deviation shows as a disagreement",
+    "a long table is keyed by instance identifier, not by position: the oracle expects the instances back from from_long_to_nested in ascending identifier order (what pivot does), "
+    "exactly as the text says for variables; with non-ascending identifiers this is a re-ordering of the rows relative to the original nested frame (observation, not reported as a defect)",
     "values are finite floats (dyadic rationals in the stream); no NaN; conversions never inspect values (the model is polymorphic in the value type)",
     "column names are python str or int, pairwise distinct, not mixed within one frame (duplicate / reserved names only in the malformed stream)",
     "frames that would contain NaN after pd.concat / pivot (unequal series lengths inside from_nested_to_multi_index, incomplete long tables) are outside the model (E:unmodelled, never generated)",
     "the name attribute of the Series in the cells is irrelevant to every converter (since 89ac2e4); the stream includes cells named by column, by instance and in permuted order, sent to the same model line as unnamed cells",
 ]
-RULE = ("exhaustive small scope: shapes (1..3)x(1..3)x(1..4) x name sets (default / str / str-unsorted / int) x start container (5 kinds) x every type-correct "
+RULE = ("exhaustive small scope: shapes (1..3)x(1..3)x(1..4) x name sets (default / str / str-unsorted / int) x start container (5 kinds; for nested / multi-index / long starts the instance "
+        "identifiers are default or, in 2/3 of the cases, shuffled / gapped / descending ints or strings that do not sort in row order) x every type-correct "
         "conversion path of length <= 3 with seeded options (quick: seed-rotated 1/6 slice; thorough: all, two draws of the options each); random larger panels (up to 8 x 13 x 12, paths <= 4); "
         "mixed primitive frames; malformed stream (2-D arrays, wrong / missing level names, wrong-length / duplicate / reserved names, shuffled / duplicated / "
         "wrong-named long tables, ragged cells); check_X flag grid. distinct by driver line; non-trivial = at least one conversion returned a container")
